@@ -50,4 +50,7 @@ run C15 && mut C15 x/timerstore/types/timer.go '		if value > tickValue {
 			// stop at first' '		if value >= tickValue {
 			// stop at first'
 run C18 && mut C18 x/pairing/keeper/msg_server_relay_payment.go 'relay.CuSum+badgeUsedCuMapEntry.UsedCu < badgeUsedCuMapEntry.UsedCu || ' ''
+run C32 && mut C32 protocol/chainlib/jsonRPC.go 'extensionInfo.LatestBlock > 126 && ' ''
+run C31 && mut C31 protocol/chainlib/jsonRPC.go '			earliestRequestedBlock = parsedBlock
+		} else {' '		} else {'
 exit 0
